@@ -283,7 +283,8 @@ func normalise(mod []*packages.Package, fset *token.FileSet, known map[string]bo
 						}
 					}
 					if call == nil {
-						abort[fn] = true; inlDebug(fn, "used other than as the callee of a direct call", fset, id.Pos())
+						abort[fn] = true
+						inlDebug(fn, "used other than as the callee of a direct call", fset, id.Pos())
 						return true
 					}
 					// statement position: the innermost enclosing statement that is a direct
@@ -301,7 +302,8 @@ func normalise(mod []*packages.Package, fset *token.FileSet, known map[string]bo
 						}
 					}
 					if stmt == nil {
-						abort[fn] = true; inlDebug(fn, "no enclosing statement", fset, id.Pos())
+						abort[fn] = true
+						inlDebug(fn, "no enclosing statement", fset, id.Pos())
 						return true
 					}
 					direct := si == i-1 // the call is an operand of the statement itself
@@ -340,20 +342,23 @@ func normalise(mod []*packages.Package, fset *token.FileSet, known map[string]bo
 						}
 					}
 					if kind == "" {
-						abort[fn] = true; inlDebug(fn, "call in an unhandled statement position", fset, id.Pos())
+						abort[fn] = true
+						inlDebug(fn, "call in an unhandled statement position", fset, id.Pos())
 						return true
 					}
 					// an if statement in an else-if position cannot be prefixed
 					if ifs, ok := stmt.(*ast.IfStmt); ok && si-1 >= 0 {
 						if par, ok := stack[si-1].(*ast.IfStmt); ok && par.Else == ast.Stmt(ifs) {
-							abort[fn] = true; inlDebug(fn, "call in an else-if condition", fset, id.Pos())
+							abort[fn] = true
+							inlDebug(fn, "call in an else-if condition", fset, id.Pos())
 							return true
 						}
 					}
 					if kind == "hoist" {
 						// single result, and everything else the statement evaluates is free of calls
 						if fn.Type().(*types.Signature).Results().Len() != 1 || !restIsPure(qinfo, stmt, call, pureFns) {
-							abort[fn] = true; inlDebug(fn, "hoisting blocked: several results or impure neighbours", fset, id.Pos())
+							abort[fn] = true
+							inlDebug(fn, "hoisting blocked: several results or impure neighbours", fset, id.Pos())
 							return true
 						}
 					}
@@ -378,12 +383,14 @@ func normalise(mod []*packages.Package, fset *token.FileSet, known map[string]bo
 						}
 					}
 					if !okParent {
-						abort[fn] = true; inlDebug(fn, "statement is not a direct child of a block", fset, id.Pos())
+						abort[fn] = true
+						inlDebug(fn, "statement is not a direct child of a block", fset, id.Pos())
 						return true
 					}
 					// enclosing function must not be the candidate itself (recursion handled) nor another candidate of this pass whose body we copy
 					if q != p && !crossOK[fn] {
-						abort[fn] = true; inlDebug(fn, "used from another package and names unexported objects", fset, id.Pos())
+						abort[fn] = true
+						inlDebug(fn, "used from another package and names unexported objects", fset, id.Pos())
 						return true
 					}
 					sc := q.Types.Scope().Innermost(call.Pos())
